@@ -69,6 +69,14 @@ _MONTH_FULL = list(_MONTH_ABBREV_TO_FULL.values())
 _LOWERCASE_FULL = list(m.lower() for m in _MONTH_FULL)
 
 
+def _printable(v: int) -> str:
+    """The number as text (python refuses to print ints beyond its size limit)."""
+    try:
+        return str(v)
+    except ValueError:
+        return "(a number with too many digits to print)"
+
+
 def _int_of_digits(v: str) -> int:
     """The number written by the digit string (leading zeros do not count for python's size limit)."""
     return int(v.lstrip("0") or "0")
@@ -111,7 +119,7 @@ class MonthLongStringMiddleware(_MonthInterpolator):
             if v < 1 or v > 12:
                 return (
                     month_field.value,
-                    f"month-field unchanged - unknown month {v}",
+                    f"month-field unchanged - unknown month {_printable(v)}",
                 )  # Nothing we can do here
             return _MONTH_FULL[v - 1], "transformed int-month to str-month"
         elif isinstance(v, str):
@@ -154,7 +162,7 @@ class MonthAbbreviationMiddleware(_MonthInterpolator):
         if isinstance(v, int):
             if v < 1 or v > 12:
                 # Nothing we can do here
-                return month_field.value, f"month-field unchanged - unknown month {v}"
+                return month_field.value, f"month-field unchanged - unknown month {_printable(v)}"
             return _MONTH_ABBREV[v - 1], "transformed int-month to abbreviated month"
         elif isinstance(v, str):
             v_lower = v.lower()
